@@ -111,6 +111,10 @@ the operator's names lower-cased, so the admission test and `serveSession` must 
 Before /repo's fix the lookup used the name as received and a ProxyMethod written exactly like its mixed-case ProxyBook
 entry — the documented way — was refused (`pinned_mixed_case_refused`). -/
 
+/-- the bypass list the server holds is the configured entries, each zero-padded to 16 bytes on its own (before /repo's fix a
+short entry inherited the tail of the previous one: a UID that appears nowhere in the configuration was authorised) -/
+theorem gen_bypass_key : Gen.Auth.bypassKeyFreshPerEntry = true ∧ Gen.Auth.isBypassLookup = true := by decide
+
 theorem gen_proxy_book :
     Gen.Auth.proxyLookupLowercases = true ∧ Gen.Auth.proxyBookLowercasedAtLoad = true ∧
     Gen.Auth.proxyLookupSameKeyInServe = true := by decide
